@@ -45,7 +45,8 @@ class StreamFace(Face, metaclass=abc.ABCMeta):
                 bio.write(await self.reader.readexactly(siz))
                 buf = bio.getvalue()
                 aio.create_task(self.callback(typ, buf))
-            except (aio.IncompleteReadError, ConnectionResetError):
+            except (aio.IncompleteReadError, OSError):
+                # The stream has ended: EOF, a reset, or any other error of the connection (timed out, unreachable, aborted)
                 self.shutdown()
 
     def send(self, data: bytes):
